@@ -539,6 +539,75 @@ func runC05(c *Ctx) {
 		}
 	}()
 
+	// ---- C05.datalen
+	rule = "C05.datalen"
+	c.R.Rule(rule, "every frame is decompressed into a buffer of exactly its announced size: on every path from the entry of readBlock to a success exit, Reader.data is stored with a slice whose length is the validated uncompressed-size field itself (append(data[:0], make(n)...), make(n), data[:n]) - a path that keeps the previous, longer buffer lets the block decompressors (which report the real size) succeed and Read then hands out the stale tail of the previous frame")
+	func() {
+		var cands []ssa.Value
+		for _, fs := range frameSizes(rb) {
+			cands = append(cands, fs.val)
+		}
+		isN := func(v ssa.Value) bool {
+			if v == nil {
+				return false
+			}
+			for _, cv := range cands {
+				if stripConv(v) == stripConv(cv) {
+					return true
+				}
+			}
+			return false
+		}
+		var exact func(v ssa.Value, d int) bool
+		exact = func(v ssa.Value, d int) bool {
+			if d > 4 {
+				return false
+			}
+			switch x := v.(type) {
+			case *ssa.Slice:
+				if x.High != nil {
+					return isN(x.High)
+				}
+				if x.Low == nil {
+					return exact(x.X, d+1)
+				}
+			case *ssa.MakeSlice:
+				return isN(x.Len)
+			case *ssa.Call:
+				if bi, ok := x.Call.Value.(*ssa.Builtin); ok && bi.Name() == "append" && len(x.Call.Args) == 2 {
+					if sl, ok := x.Call.Args[0].(*ssa.Slice); ok && sl.High != nil {
+						if k, okc := core.ConstInt(sl.High); okc && k == 0 {
+							return exact(x.Call.Args[1], d+1)
+						}
+					}
+				}
+			}
+			return false
+		}
+		sizing := func(in ssa.Instruction) bool {
+			st, ok := in.(*ssa.Store)
+			return ok && readerField(st.Addr) == "data" && exact(st.Val, 0)
+		}
+		n := 0
+		for _, b := range rb.Blocks {
+			for _, in := range b.Instrs {
+				if sizing(in) {
+					n++
+				}
+			}
+		}
+		if n == 0 {
+			c.R.Unk(rule, core.FuncName(rb), cfg, p.Pos(rb.Pos()), "no store sizes Reader.data by the uncompressed-size field (anchor lost)")
+			return
+		}
+		w := core.ReachAvoiding(core.Entry(rb), succ(rb), sizing, nil)
+		if len(w) > 0 {
+			c.R.Bad(rule, core.FuncName(rb), cfg, p.Pos(w[0].At.Pos()), "readBlock can succeed without having sized Reader.data to this frame's uncompressed size: after a larger frame, a smaller one is followed by the stale tail of its predecessor", p.TrailString(w[0])...)
+		} else {
+			c.R.Ok(rule, core.FuncName(rb), cfg, p.Pos(rb.Pos()), sprintf("%d sizing stores; none avoidable on a success path", n))
+		}
+	}()
+
 	// ---- C05.alias
 	rule = "C05.alias"
 	c.R.Rule(rule, "the decompressed-data buffer never aliases the raw frame buffer: every value stored to Reader.data derives from Reader.data itself (append to data[:0], DecodeAll into data[:0]) and not from Reader.raw - otherwise the next frame is decompressed in place over its own source")
@@ -588,6 +657,7 @@ func runC05(c *Ctx) {
 	ruleFrameLayout(c, p, "C05.frame", rb, wr)
 	ruleReaderSource(c, p, "C05.source")
 	ruleReadFull(c, p, "C05.readfull")
+	ruleTableLookups(c, p, "C05.tables")
 	c.R.Assumptions = append(c.R.Assumptions,
 		"CityHash128 detects single-byte alterations; lz4 / zstd decompress what they compressed (third-party codecs, not analysed)",
 		"decided: bounds before allocation, verification before use and on every success path, error content, exhausted-after-failure typestate, refill condition, no aliasing of raw and data, frame layout agreement of writer and reader; not decided: decompress(compress(x)) = x")
@@ -810,14 +880,27 @@ func ruleMethodTable(c *Ctx, p *core.Program, rule string) {
 		return strings.Join(out, "+")
 	}
 	// the switch may sit in the function itself or in a helper it calls
+	// (a switch of the same selector that only maps it to another constant - Method -> method byte - is
+	// the table, not the codec dispatch: candidates are ranked by the number of cases that call a codec)
 	holder := func(root *ssa.Function, sel func(ssa.Value) bool) (*ssa.Function, map[int64]*ssa.BasicBlock) {
+		score := func(f *ssa.Function, t map[int64]*ssa.BasicBlock) int {
+			n := 0
+			for _, blk := range t {
+				if family(f, blk, nil) != "" {
+					n++
+				}
+			}
+			return n
+		}
 		best, bt := root, switchTable(root, sel)
+		bs := score(best, bt)
 		for _, f := range core.StaticReachList(root) {
 			if f == nil || f.Blocks == nil || pkgOf(f) == nil || pkgOf(f).Path() != core.PkgCompress {
 				continue
 			}
-			if t := switchTable(f, sel); len(t) > len(bt) || len(t) == len(bt) && len(t) > 0 && f.String() < best.String() && best != root {
-				best, bt = f, t
+			t := switchTable(f, sel)
+			if sc := score(f, t); sc > bs || sc == bs && (len(t) > len(bt) || len(t) == len(bt) && len(t) > 0 && f.String() < best.String() && best != root) {
+				best, bt, bs = f, t, sc
 			}
 		}
 		return best, bt
@@ -838,6 +921,24 @@ func ruleMethodTable(c *Ctx, p *core.Program, rule string) {
 					v, ok2 := core.ConstInt(mu.Value)
 					if ok1 && ok2 {
 						tbl[k] = v
+					}
+				}
+			}
+		}
+	}
+	// or a mapping function func(Method) methodEncoding, folded for every method constant
+	if len(tbl) == 0 {
+		for _, g := range p.Funcs() {
+			if pkgOf(g) == nil || pkgOf(g).Path() != core.PkgCompress || g.Blocks == nil || len(g.Params) != 1 || g.Signature.Results().Len() != 1 {
+				continue
+			}
+			if !core.IsNamed(g.Params[0].Type(), core.PkgCompress, "Method") || !core.IsNamed(g.Signature.Results().At(0).Type(), core.PkgCompress, "methodEncoding") {
+				continue
+			}
+			for _, nm := range []string{"None", "LZ4", "LZ4HC", "ZSTD"} {
+				if m, ok := constOf(p, core.PkgCompress, nm); ok {
+					if v, okf := core.FoldFunc(g, nil, map[int]int64{0: m}); okf {
+						tbl[m] = v
 					}
 				}
 			}
@@ -1137,4 +1238,184 @@ func ruleCodecLimits(c *Ctx, p *core.Program, rule string) {
 	if n == 0 {
 		c.R.Ok(rule, "compress", cfg, "", "no decoder-side cap configured").Trivial = true
 	}
+}
+
+// ---- tables (C05 / C02): lookups in fixed package-level tables are in range
+// tableLookups lists the index operations of fn into package-level arrays with a non-constant index,
+// and whether each is guarded by an upper-bound test that keeps the index below the table's length.
+func tableLookups(fn *ssa.Function) (sites []ssa.Instruction, guarded []bool, lens []int64) {
+	for _, b := range fn.Blocks {
+		for _, in := range b.Instrs {
+			var iaX, iaIndex ssa.Value
+			var ia ssa.Instruction
+			switch x := in.(type) {
+			case *ssa.IndexAddr:
+				iaX, iaIndex, ia = x.X, x.Index, x
+			case *ssa.Index:
+				// indexing an array value loaded from a table
+				if u, ok := x.X.(*ssa.UnOp); ok && u.Op == token.MUL {
+					iaX, iaIndex, ia = u.X, x.Index, x
+				}
+			}
+			if ia == nil {
+				continue
+			}
+			var tbl ssa.Value
+			switch g := iaX.(type) {
+			case *ssa.Global:
+				tbl = g
+			case *ssa.Alloc:
+				// a table written as a local array literal: only constant-index stores fill it
+				lit := true
+				for _, r := range *g.Referrers() {
+					if ria, ok := r.(*ssa.IndexAddr); ok && ssa.Instruction(ria) != ia {
+						if _, isConst := core.ConstInt(ria.Index); !isConst {
+							lit = false
+						}
+					}
+				}
+				if lit {
+					tbl = g
+				}
+			}
+			if tbl == nil {
+				continue
+			}
+			pt, ok := tbl.Type().Underlying().(*types.Pointer)
+			if !ok {
+				continue
+			}
+			at, ok := pt.Elem().Underlying().(*types.Array)
+			if !ok {
+				continue
+			}
+			if _, isConst := core.ConstInt(iaIndex); isConst {
+				continue
+			}
+			n := at.Len()
+			idx := stripConv(iaIndex)
+			// index = base + constant offset
+			off := int64(0)
+			full := idx
+			if bo, okb := idx.(*ssa.BinOp); okb && bo.Op == token.ADD {
+				if k, okc := core.ConstInt(bo.Y); okc && k >= 0 {
+					idx, off = stripConv(bo.X), k
+				}
+			}
+			n -= off
+			var bounded func(v ssa.Value, at ssa.Instruction, d int) bool
+			bounded = func(v ssa.Value, at ssa.Instruction, d int) bool {
+				v = stripConv(v)
+				if d > 4 {
+					return false
+				}
+				if k, okc := core.ConstInt(v); okc {
+					return k >= 0 && k < n
+				}
+				if ph, okp := v.(*ssa.Phi); okp {
+					for ei, e := range ph.Edges {
+						pred := ph.Block().Preds[ei]
+						// the edge into the phi may itself be the passing edge of the bound test
+						if ifi, oki := pred.Instrs[len(pred.Instrs)-1].(*ssa.If); oki {
+							if bo, okb := ifi.Cond.(*ssa.BinOp); okb && stripConv(bo.X) == stripConv(e) {
+								if k, okc := core.ConstInt(bo.Y); okc {
+									pass := -1
+									switch {
+									case bo.Op == token.GEQ && k <= n, bo.Op == token.GTR && k < n:
+										pass = 1
+									case bo.Op == token.LSS && k <= n, bo.Op == token.LEQ && k < n:
+										pass = 0
+									}
+									if pass >= 0 && pred.Succs[pass] == ph.Block() && pred.Succs[1-pass] != ph.Block() {
+										continue
+									}
+								}
+							}
+						}
+						if !bounded(e, pred.Instrs[len(pred.Instrs)-1], d+1) {
+							return false
+						}
+					}
+					return len(ph.Edges) > 0
+				}
+				upper := core.CondEdges(fn, false, func(cond ssa.Value) (bool, bool) {
+					bo, ok := cond.(*ssa.BinOp)
+					if !ok {
+						return false, false
+					}
+					if k, okc := core.ConstInt(bo.Y); okc && stripConv(bo.X) == v {
+						switch {
+						case bo.Op == token.GEQ && k <= n, bo.Op == token.GTR && k < n:
+							return true, true
+						case bo.Op == token.LSS && k <= n, bo.Op == token.LEQ && k < n:
+							return false, true
+						}
+					}
+					// v >= len(table)
+					if cl, okc := bo.Y.(*ssa.Call); okc && stripConv(bo.X) == v && off == 0 {
+						if bi, okb := cl.Call.Value.(*ssa.Builtin); okb && bi.Name() == "len" {
+							switch bo.Op {
+							case token.GEQ:
+								return true, true
+							case token.LSS:
+								return false, true
+							}
+						}
+					}
+					return false, false
+				})
+				return len(upper) > 0 && core.OnlyViaEdges(fn, at, upper)
+			}
+			ok2 := bounded(idx, ia, 0)
+			// an index masked or reduced modulo a constant below the length
+			if bo, okb := full.(*ssa.BinOp); okb && !ok2 {
+				if k, okc := core.ConstInt(bo.Y); okc {
+					if bo.Op == token.AND && k < at.Len() || bo.Op == token.REM && k <= at.Len() {
+						if b, okt := bo.Type().Underlying().(*types.Basic); okt && (bo.Op == token.AND || b.Info()&types.IsUnsigned != 0) {
+							ok2 = true
+						}
+					}
+				}
+			}
+			// a range loop over the table itself
+			if ph, okp := idx.(*ssa.Phi); okp && !ok2 {
+				for _, bb := range fn.Blocks {
+					if ifi, oki := bb.Instrs[len(bb.Instrs)-1].(*ssa.If); oki {
+						if bo, okb := ifi.Cond.(*ssa.BinOp); okb && bo.Op == token.LSS {
+							if k, okc := core.ConstInt(bo.Y); okc && k <= n && (bo.X == ssa.Value(ph) || core.DependsOn(bo.X, func(x ssa.Value) bool { return x == ssa.Value(ph) }, false)) && bb.Dominates(ia.Block()) {
+								ok2 = true
+							}
+						}
+					}
+				}
+			}
+			sites = append(sites, ia)
+			guarded = append(guarded, ok2)
+			lens = append(lens, at.Len())
+		}
+	}
+	return
+}
+
+func ruleTableLookups(c *Ctx, p *core.Program, rule string) {
+	c.R.Rule(rule, "lookups in fixed package-level tables of packages compress and ch (level or method tables) are in range: an index that is not a constant is compared with a constant not above the table's length (or with len of the table) on every path to the lookup, masked below it, or is the index of a loop bounded by it - a level clamped to a maximum larger than the table makes NewWriter panic for the upper part of the documented range")
+	cfg := p.Cfg.Name
+	n := 0
+	for _, fn := range p.Funcs() {
+		pk := pkgOf(fn)
+		if pk == nil || fn.Blocks == nil || (pk.Path() != core.PkgCompress && pk.Path() != core.PkgCh) || fn.Synthetic != "" {
+			continue
+		}
+		sites, guarded, lens := tableLookups(fn)
+		for i, at := range sites {
+			n++
+			key := sprintf("%s/table#%d", core.FuncName(fn), i+1)
+			if guarded[i] {
+				c.R.Ok(rule, key, cfg, p.Pos(at.Pos()), sprintf("index bounded below the table length %d", lens[i]))
+			} else {
+				c.R.Bad(rule, key, cfg, p.Pos(at.Pos()), sprintf("a package-level table of %d entries is indexed by a value that no test bounds below %d: values at the upper end of the accepted range panic (index out of range)", lens[i], lens[i]))
+			}
+		}
+	}
+	c.R.Count("table lookups with a non-constant index["+cfg+"]", n)
 }
